@@ -109,17 +109,6 @@ def pProg (cs ros gs rs body : String) : Option Prog := do
 
 def b01 (b : Bool) : String := if b then "1" else "0"
 
-/-! toy interpretation for `hist`: data are numbers -/
-def toy : Interp Nat where
-  comp op ds := (ds.foldl (fun acc d => 31 * acc + d + 7) (op + 1)) % 1000003
-  rd path d := (path.foldl (fun acc v => 17 * acc + v + 3) d) % 1000003
-  wr op path old ds := (ds.foldl (fun acc d => 13 * acc + d + 5) (old + op + path.length)) % 1000003
-  ok _ _ := true
-  cnt d := d % 4
-  idx j := j
-  copies _ _ := false
-  conv cop d := (d + cop) % 1000003
-
 def pArg (s : String) : Option (Nat × Arg Nat) :=
   match (s.splitOn ":").map String.toNat? with
   | [some a, some d, some w, some c] => some (a, ⟨d, [], w != 0, c != 0⟩)
